@@ -33,7 +33,9 @@ func (m *Module) Init(s *models.Session, p *models.Participant) {
 	}
 	m.state = state.(*State)
 
-	m.state.SpatialPartition = NewRegularGrid(1, 1, 2)
+	if m.state.SpatialPartition == nil {
+		m.state.SpatialPartition = NewRegularGrid(1, 1, 2)
+	}
 }
 
 func (m *Module) HandleMsg(ctx context.Context, respond hwebsocket.ResponseSender, msg hwebsocket.Msg) error {
